@@ -70,6 +70,8 @@ def check_case(case):
     tol = 1e-9 / O.gram_det(cell)
     rots = [R for _, R in alph.quat_rots(1)]
     rots = [rots[0], rots[7], rots[23]] if tier == "quick" else rots[:12]
+    # orientations where an Euler-angle detour would lose digits: PHI 1e-7 / 1e-6 from 0 and pi, a Bunge angle 5e-9 from a multiple of 90 degrees
+    rots = rots + [alph.euler_ref(0.3, 1e-7, 1.1), alph.euler_ref(4.0, math.pi - 1e-6, 6.0), alph.euler_ref(math.pi / 2 + 5e-9, 0.7, 1.0), alph.euler_ref(2.0, math.pi / 2 - 3e-9, 0.4)]
     base = "%s:cell=%s" % (mname, cell)
     bn = float(np.max(np.abs(B0)))
     # zero strain gives the unstrained B
